@@ -452,7 +452,7 @@ func runC17Settings(k int, rng *Rng) CaseResult {
 	// (b) other extension
 	if !w.failed() {
 		other := cloneCfg(cfg)
-		other.Ext = map[string]string{".json": ".obj", ".obj": ".json", ".v1.dat": ".json"}[cfg.Ext]
+		other.Ext = map[string]string{".json": ".obj", ".obj": ".json", ".v1.dat": ".json", ".gz": ".json", ".data.gz": ".gz"}[cfg.Ext]
 		var e error
 		w.call("Create(extension)", func() { e = w.db.Create(&Rec{}, schemaFor(other, &Rec{})) })
 		if !errors.Is(e, sod.ErrExtensionMismatch) {
@@ -461,6 +461,29 @@ func runC17Settings(k int, rng *Rng) CaseResult {
 	}
 	if h, files := treeHash(w.root); !w.failed() && h != before {
 		w.fail("refused-operation-changed-files", "Create", cfgMode(cfg), diffTree(beforeFiles, files))
+	}
+	// (b') the first Create of another collection, with descriptors taken from a different struct:
+	// refused, nothing left behind, and the collection can be created properly afterwards
+	if !w.failed() {
+		var e error
+		wrong := sod.NewCustomSchema(sod.FieldDescriptors(&Tagged{}), cfg.Ext)
+		w.call("Create(new collection, foreign descriptors)", func() { e = w.db.Create(&Other{}, wrong) })
+		if e == nil {
+			w.fail("shape-mismatch-not-refused", "Create(new collection)", "-", "descriptors of another struct were accepted")
+		} else if h, files := treeHash(w.root); h != before {
+			w.fail("refused-operation-changed-files", "Create(new collection)", cfgMode(cfg), fmt.Sprintf("refused with %v, yet: %s", e, diffTree(beforeFiles, files)))
+		} else {
+			right := sod.DefaultSchema
+			right.Extension = cfg.Ext
+			w.call("Create(new collection)", func() { e = w.db.Create(&Other{}, right) })
+			if e == nil {
+				w.call("InsertOrUpdate(Other)", func() { e = w.db.InsertOrUpdate(&Other{A: 1, B: "b", C: 2}) })
+			}
+			if e != nil {
+				w.fail("create-failed", "Create(new collection)", "after-refused-create", e.Error())
+			}
+		}
+		stats.Count("refused_first_create_checks", 1)
 	}
 	// (c) compatible Create is idempotent and preserves data
 	for i := 0; i < 2 && !w.failed(); i++ {
